@@ -64,7 +64,9 @@ Definition cap_ok (m : qmatch) (q : quant) (idx : N) : bool :=
   end.
 Definition no_capture (q : quant) (fi si : N) : bool := false.
 (* the strict interpreter looks captures up by their index in the stanza query *)
-Definition cap_ok_stanza (m : qmatch) (q : quant) (fi si : N) : bool := cap_ok m q si.
+Definition by_stanza (f : quant -> N -> bool) (q : quant) (fi si : N) : bool := f q si.
+(* the weaker condition that only the checker is responsible for: the quantifier has been resolved *)
+Definition cap_resolved (m : qmatch) (q : quant) (idx : N) : bool := negb (quant_eqb q QZero).
 
 (* ------------------------------------------------------------------ good values *)
 Section Good.
@@ -238,6 +240,7 @@ Proof. intros Hn H. destruct H; constructor; lia. Qed.
 Section Safe.
   Variable sok : N -> Prop.
   Variable base : nat.                         (* size of the initial graph: the globals are good for it *)
+  Variable allowed : N -> Prop.                (* panic sites that the hypotheses do not exclude *)
 
   Definition Inv (s : sstate) : Prop :=
     (base <= glen s)%nat /\ lgood sok (glen s) (s_locals s) /\ scgood sok (glen s) (s_scoped s) /\
@@ -249,7 +252,7 @@ Section Safe.
     forall s p, Inv s -> (n0 <= glen s)%nat -> shape s = sh ->
       match m s p with
       | Ok (a, s', p') => Inv s' /\ (glen s <= glen s')%nat /\ shape s' = sh' /\ Q a (glen s')
-      | Panic _ => False
+      | Panic x => allowed x
       | _ => True
       end.
   Definition T {A} : A -> nat -> Prop := fun _ _ => True.
@@ -286,7 +289,7 @@ Section Safe.
   Lemma safe_oof A n0 sh sh' (Q : A -> nat -> Prop) : safe n0 sh sh' Q out_of_fuel.
   Proof. intros s p HI Hn Hs. exact I. Qed.
   Lemma safe_lift A n0 sh (Q : A -> nat -> Prop) (r : res A) :
-    match r with Ok a => forall n, (n0 <= n)%nat -> Q a n | Panic _ => False | _ => True end -> safe n0 sh sh Q (lift r).
+    match r with Ok a => forall n, (n0 <= n)%nat -> Q a n | Panic x => allowed x | _ => True end -> safe n0 sh sh Q (lift r).
   Proof. intros H s p HI Hn Hs. unfold lift. destruct r as [a|e|x|]; [|exact I|exact H|exact I]. split; [exact HI|]. split; [lia|]. split; [exact Hs|]. apply H, Hn. Qed.
   Lemma safe_poll n0 sh l : safe n0 sh sh T (poll l).
   Proof. intros s p HI Hn Hs. unfold poll. destruct (poll_step l p) as [q c]. destruct c; [exact I|]. split; [exact HI|]. repeat split; auto. Qed.
@@ -435,12 +438,20 @@ Section Safe.
     Hypothesis Hcall : GoodCall sok call.
     (* shorthand bodies contain no capture expression (a capture there is the known class K1) *)
     Hypothesis Hsh : forall sh, In sh (f_shorthands fl) -> forallb (attr_ok no_capture) (sh_attrs sh) = true.
+    (* the condition on capture expressions relative to a match, and what it buys *)
+    Variable okc : qmatch -> quant -> N -> bool.
+    Hypothesis Hokc : forall m, Forall (fun c : N * list N => Forall sok (snd c)) m -> forall q idx, okc m q idx = true ->
+      match from_nodes (nodes_for_capture m idx) q with
+      | Ok v => forall n, vgood sok n v
+      | Panic x => allowed x
+      | _ => True
+      end.
 
     Lemma safe_call_function n0 sh f args : Forall (vgood sok n0) args -> safe n0 sh sh VG (call_function call f args).
     Proof.
       intros Ha s p HI Hn Hs. unfold call_function, bind, get_state.
       assert (Ha' : Forall (vgood sok (length (s_graph s))) args) by (eapply vsgood_mono; [|exact Ha]; exact Hn).
-      pose proof (Hcall f (s_graph s) args Ha') as Hc. destruct (call f (s_graph s) args) as [[v g']|e|x|]; auto.
+      pose proof (Hcall f (s_graph s) args Ha') as Hc. destruct (call f (s_graph s) args) as [[v g']|e|x|]; [|exact I|contradiction|exact I].
       destruct Hc as [Hg Hv]. unfold set_graph, modify, ret. split; [apply Inv_grow; [exact HI|exact Hg]|].
       unfold glen at 2 3. cbn [s_graph]. repeat split; auto.
     Qed.
@@ -500,7 +511,7 @@ Section Safe.
       forall q fi si, okq q fi si = true ->
         match from_nodes (nodes_for_capture m si) q with
         | Ok v => forall n, vgood sok n v
-        | Panic _ => False
+        | Panic x => allowed x
         | _ => True
         end.
     Lemma caps_safe_none m : caps_safe m no_capture.
@@ -753,7 +764,7 @@ Section Safe.
     (* ---- matches: what tree-sitter guarantees about a match of the stanza's query ---- *)
     Definition good_match (st : stanza) (m : qmatch) : Prop :=
       nodes_for_capture m (st_full_stanza_idx st) <> [] /\
-      forallb (stmt_ok (cap_ok_stanza m)) (st_stmts st) = true /\
+      forallb (stmt_ok (by_stanza (okc m))) (st_stmts st) = true /\
       Forall (fun c : N * list N => Forall sok (snd c)) m.
     Fixpoint good_matches (sts : list stanza) (ms : list (list qmatch)) {struct sts} : Prop :=
       match sts, ms with
@@ -784,8 +795,23 @@ Section Safe.
       - exact Hl.
       - exact Hl.
     Qed.
-    Lemma caps_safe_cap_ok m : Forall (fun c : N * list N => Forall sok (snd c)) m -> caps_safe m (cap_ok_stanza m).
-    Proof. intros H q fi si Hq. apply cap_ok_from_nodes; assumption. Qed.
+    Lemma cap_resolved_from_nodes m : Forall (fun c : N * list N => Forall sok (snd c)) m -> forall q idx, cap_resolved m q idx = true ->
+      match from_nodes (nodes_for_capture m idx) q with
+      | Ok v => forall n, vgood sok n v
+      | Panic x => x = P_missing_capture
+      | _ => True
+      end.
+    Proof.
+      intros H q idx Hq. destruct q; try discriminate.
+      - cbn [from_nodes]. destruct (nodes_for_capture m idx) as [|n ns] eqn:En; [reflexivity|].
+        assert (Hc : cap_ok m QOne idx = true) by (unfold cap_ok; rewrite En; reflexivity).
+        pose proof (cap_ok_from_nodes m H QOne idx Hc) as Hf. cbn [from_nodes] in Hf. rewrite En in Hf. exact Hf.
+      - pose proof (cap_ok_from_nodes m H QOpt idx eq_refl) as Hf. destruct (from_nodes (nodes_for_capture m idx) QOpt); auto; contradiction.
+      - pose proof (cap_ok_from_nodes m H QStar idx eq_refl) as Hf. destruct (from_nodes (nodes_for_capture m idx) QStar); auto; contradiction.
+      - pose proof (cap_ok_from_nodes m H QPlus idx eq_refl) as Hf. destruct (from_nodes (nodes_for_capture m idx) QPlus); auto; contradiction.
+    Qed.
+    Lemma caps_safe_okc m : Forall (fun c : N * list N => Forall sok (snd c)) m -> caps_safe m (by_stanza (okc m)).
+    Proof. intros H q fi si Hq. apply Hokc; assumption. Qed.
 
     Lemma safe_exec_stanza fuel st m n0 sh : good_match st m -> forallb (scans_ok regexes) (st_stmts st) = true ->
       safe n0 sh sh T (exec_stanza t fl cfg glob regexes find call fuel st m).
@@ -793,8 +819,8 @@ Section Safe.
       intros (Hfull & Hok & Hm) Hsc. unfold exec_stanza. eapply safe_bind; [apply safe_clear_frame|]. intros _ n1 Hn1 _.
       apply safe_iterM_in. intros s Hin n2 Hn2. cbv zeta.
       destruct (nodes_for_capture m (st_full_stanza_idx st)) as [|n ns] eqn:En; [exfalso; apply Hfull; reflexivity|].
-      apply safe_ctx. apply safe_exec_stmt with (okq := cap_ok_stanza m).
-      - cbn [le_with_ctx le_match]. apply caps_safe_cap_ok, Hm.
+      apply safe_ctx. apply safe_exec_stmt with (okq := by_stanza (okc m)).
+      - cbn [le_with_ctx le_match]. apply caps_safe_okc, Hm.
       - cbn [le_with_ctx le_match le_full]. rewrite En. discriminate.
       - eapply forallb_In; eauto.
       - eapply forallb_In; eauto.
@@ -826,14 +852,26 @@ Definition WellFormedFile {rx : Type} (regexes : list rx) (fl : file) : Prop := 
    the stanza has a resolved quantifier and, when it is One, at least one node in the match; all matched nodes
    satisfy sok *)
 Definition GoodMatches (sok : N -> Prop) (fl : file) (matches : list (list qmatch)) : Prop :=
-  good_matches sok (f_stanzas fl) matches.
+  good_matches sok cap_ok (f_stanzas fl) matches.
+(* the same without "a capture whose quantifier is One has a node in the match" *)
+Definition GoodMatchesResolved (sok : N -> Prop) (fl : file) (matches : list (list qmatch)) : Prop :=
+  good_matches sok cap_resolved (f_stanzas fl) matches.
 Definition GoodGlobals (sok : N -> Prop) (g0 : graph) (supplied : globals) : Prop := ggood sok (length g0) supplied.
 
-Theorem exec_no_panic_strict {rx : Type} (sok : N -> Prop) t fl cfg supplied budget (regexes : list rx) find call fuel matches g0 :
-  WellFormedFile regexes fl -> GoodMatches sok fl matches -> GoodGlobals sok g0 supplied -> GoodCall sok call ->
-  forall x, run_strict t fl cfg supplied budget regexes find call fuel matches g0 <> Panic x.
+(* general form: the panic sites that can be reached are those that evaluating a capture expression satisfying
+   okc can reach *)
+Theorem exec_panics_strict {rx : Type} (sok allowed : N -> Prop) (okc : qmatch -> quant -> N -> bool)
+    t fl cfg supplied budget (regexes : list rx) find call fuel matches g0 :
+  (forall m, Forall (fun c : N * list N => Forall sok (snd c)) m -> forall q idx, okc m q idx = true ->
+     match from_nodes (nodes_for_capture m idx) q with
+     | Ok v => forall n, vgood sok n v
+     | Panic x => allowed x
+     | _ => True
+     end) ->
+  WellFormedFile regexes fl -> good_matches sok okc (f_stanzas fl) matches -> GoodGlobals sok g0 supplied -> GoodCall sok call ->
+  forall x, run_strict t fl cfg supplied budget regexes find call fuel matches g0 = Panic x -> allowed x.
 Proof.
-  intros Hwf Hm Hg Hcall x. unfold run_strict. unfold WellFormedFile, wf_file in Hwf. apply andb_true_iff in Hwf as [Hsc Hsh].
+  intros Hokc Hwf Hm Hg Hcall x. unfold run_strict. unfold WellFormedFile, wf_file in Hwf. apply andb_true_iff in Hwf as [Hsc Hsh].
   destruct (check_globals (f_globals fl) (globals_nested supplied)) as [glob|e|y|] eqn:Eg; try discriminate.
   2:{ exfalso. exact (check_globals_no_panic _ _ _ Eg). }
   assert (Hglob : ggood sok (length g0) glob).
@@ -841,11 +879,31 @@ Proof.
   assert (HI : Inv sok (length g0) (sinit g0)).
   { unfold Inv, sinit, glen. cbn [s_graph s_locals s_scoped s_params]. split; [lia|]. split; [constructor; constructor|].
     split; constructor. }
-  pose proof (safe_exec_file sok (length g0) t fl cfg glob regexes find call Hglob Hcall
-                (fun sh Hin => forallb_In _ _ _ Hsh Hin) fuel (f_stanzas fl) matches 0%nat (1%nat, 0%nat) Hm Hsc
+  pose proof (safe_exec_file sok (length g0) allowed t fl cfg glob regexes find call Hglob Hcall
+                (fun sh Hin => forallb_In _ _ _ Hsh Hin) okc Hokc fuel (f_stanzas fl) matches 0%nat (1%nat, 0%nat) Hm Hsc
                 (sinit g0) (polls0 budget) HI (Nat.le_0_l _) eq_refl) as H.
   destruct (exec_file t fl cfg glob regexes find call fuel (f_stanzas fl) matches (sinit g0) (polls0 budget)) as [[[u s] p]|e|y|];
-    try discriminate. contradiction.
+    try discriminate. intros E. inversion E; subst. exact H.
+Qed.
+
+Theorem exec_no_panic_strict {rx : Type} (sok : N -> Prop) t fl cfg supplied budget (regexes : list rx) find call fuel matches g0 :
+  WellFormedFile regexes fl -> GoodMatches sok fl matches -> GoodGlobals sok g0 supplied -> GoodCall sok call ->
+  forall x, run_strict t fl cfg supplied budget regexes find call fuel matches g0 <> Panic x.
+Proof.
+  intros Hwf Hm Hg Hcall x E.
+  exact (exec_panics_strict sok (fun _ => False) cap_ok t fl cfg supplied budget regexes find call fuel matches g0
+           (cap_ok_from_nodes sok) Hwf Hm Hg Hcall x E).
+Qed.
+
+(* without the assumption that tree-sitter binds every capture whose quantifier is One, the only reachable site is
+   Value::from_nodes' `.expect("missing capture")` *)
+Theorem exec_only_missing_capture_strict {rx : Type} (sok : N -> Prop) t fl cfg supplied budget (regexes : list rx) find call fuel matches g0 :
+  WellFormedFile regexes fl -> GoodMatchesResolved sok fl matches -> GoodGlobals sok g0 supplied -> GoodCall sok call ->
+  forall x, run_strict t fl cfg supplied budget regexes find call fuel matches g0 = Panic x -> x = P_missing_capture.
+Proof.
+  intros Hwf Hm Hg Hcall.
+  exact (exec_panics_strict sok (fun x => x = P_missing_capture) cap_resolved t fl cfg supplied budget regexes find call fuel matches g0
+           (cap_resolved_from_nodes sok) Hwf Hm Hg Hcall).
 Qed.
 
 (* ------------------------------------------------------------------ the real function library *)
@@ -901,3 +959,10 @@ Proof.
   - pose proof (pure_simple rx t fn g args N1 N2) as Hs. rewrite Ep in Hs. cbn [rsimple] in Hs.
     split; [destruct fn; try lia; congruence|apply simple_good, Hs].
 Qed.
+
+(* the site the weaker theorem leaves open is reached exactly by a capture expression whose quantifier is One
+   and that has no node in the match *)
+Lemma missing_capture_panics_strict t fl glob call fuel le name fidx sidx l s p :
+  nodes_for_capture (le_match le) sidx = [] ->
+  eval t fl glob call (S fuel) le (ECapture name QOne fidx sidx l) s p = Panic P_missing_capture.
+Proof. intros H. cbn [eval]. rewrite H. reflexivity. Qed.
